@@ -66,8 +66,16 @@ class World:
         })
         self.steps += 1
 
+    oplog = None  # when a list: every op that was applied (also those issued by heal()) is appended
+
     def apply(self, op) -> bool:
         """Apply one op; False if it was not applicable (skipped)."""
+        r = self._apply(op)
+        if r and self.oplog is not None and op[0] != "heal":
+            self.oplog.append(op)
+        return r
+
+    def _apply(self, op) -> bool:
         k = op[0]
         if k == "clock":
             sim.Clock.ticks += op[1]
@@ -115,6 +123,7 @@ class World:
                 return True  # no data receiver: DTLS drops it
             exc = ep.rx(d)
             self._after(name, ["rx", d], exc)
+            self.trace[name][-1]["cpu"] = ep.last_rx_cpu
             return True
         if k == "inject":
             # a datagram made up by the network (hex), handed to the endpoint as it is
@@ -123,6 +132,7 @@ class World:
             d = bytes.fromhex(op[2])
             exc = ep.rx(d)
             self._after(name, ["rx", d], exc)
+            self.trace[name][-1]["cpu"] = ep.last_rx_cpu
             return True
         if k == "fire":
             if not any(h.name == op[2] for h in ep.armed()):
@@ -220,19 +230,20 @@ class World:
         return out
 
 
-def random_ops(rng, case, n_steps, profile):
-    """Drive a world with a random policy and return the list of ops that were applied."""
-    w = World(dict(case, ops=[]))
-    ops = []
+def random_ops(rng, case, n_steps, profile, world=None):
+    """Drive a world with a random policy and return the list of ops that were applied.
+    With `world` (whose `oplog` is a list) the policy continues an existing run."""
+    w = world if world is not None else World(dict(case, ops=[]))
+    if w.oplog is None:
+        w.oplog = []
+    ops = w.oplog
 
     def do(op):
-        if w.apply(op):
-            ops.append(op)
-            return True
-        return False
+        return w.apply(op)
 
-    do(["start", "A"])
-    do(["start", "B"])
+    if world is None:
+        do(["start", "A"])
+        do(["start", "B"])
     loss = profile.get("loss", 0.1)
     dup = profile.get("dup", 0.03)
     reorder = profile.get("reorder", 0.2)
